@@ -3,6 +3,7 @@
 package c03
 
 import (
+	"os"
 	"errors"
 	"fmt"
 	"go/ast"
@@ -384,7 +385,11 @@ var noValue = map[string]string{
 // constructorsInSource lists exported functions returning Field from the current /repo.
 func constructorsInSource() (map[string]bool, error) {
 	out := map[string]bool{}
-	files := map[string]string{"/repo/field.go": "", "/repo/array.go": "", "/repo/error.go": "", "/repo/exp/zapfield/zapfield.go": "zapfield."}
+	repo := os.Getenv("VERIF_REPO")
+	if repo == "" {
+		repo = "/repo"
+	}
+	files := map[string]string{repo + "/field.go": "", repo + "/array.go": "", repo + "/error.go": "", repo + "/exp/zapfield/zapfield.go": "zapfield."}
 	for path, prefix := range files {
 		fs := token.NewFileSet()
 		f, err := parser.ParseFile(fs, path, nil, 0)
